@@ -12,8 +12,8 @@
 //           (initialize; if ok {start; if ok {stop}; cleanup}; destroy) for every program.
 // ORACLE    (hook log of the probe modules only; DESIGN.md 1.7: not more than the statement)
 //   O1 within one root call ("pass") init hooks and start hooks appear in strictly increasing pre-order id
-//      (parent before children, children in registration order, nested); stop hooks and cleanup hooks in
-//      strictly decreasing id (exact reverse).
+//      (parent before children, children in registration order, nested); stop / cleanup hooks are LIFO w.r.t.
+//      the start / init hooks they undo (exact reverse): if X's hook ran before Y's, Y is stopped/cleaned first.
 //   O2 per module: start hook only while a successful init hook is outstanding; stop hook only while a
 //      successful start hook is outstanding; cleanup hook only when no start is outstanding (after stop)
 //      and an init is outstanding; no second init/start hook while the previous one is outstanding.
@@ -208,7 +208,7 @@ static std::string cause(const Prog &p, const Ev *log, int nlog, int x, int kind
   return "other";
 }
 
-struct Auto { uint8_t oi[MAXN], os[MAXN]; int8_t ipass[MAXN], spass[MAXN]; };
+struct Auto { uint8_t oi[MAXN], os[MAXN]; int8_t ipass[MAXN], spass[MAXN]; uint8_t lateT[MAXN], lateC[MAXN]; int iseq[MAXN], sseq[MAXN]; };
 
 static void oracle(const Prog &p, const Run &r, bool judge_balance, int skip, std::vector<Finding> &out, Auto *snap) {
   const Ev *log = r.log; int n = r.nlog;
@@ -218,26 +218,38 @@ static void oracle(const Prog &p, const Run &r, bool judge_balance, int skip, st
   Auto a; memset(&a, 0, sizeof a);
   if (snap && r.nlog_snap == 0) *snap = a;
   int last[4] = {-1, -1, 1000, 1000}; int curpass = -1;
+  uint8_t *lateT = a.lateT, *lateC = a.lateC; int *iseq = a.iseq, *sseq = a.sseq;
   for (int i = 0; i < n; i++) {
     int k = log[i].kind, x = log[i].node; bool ok = log[i].ok;
     if (log[i].pass != curpass) { curpass = log[i].pass; last[HI] = last[HS] = -1; last[HT] = last[HC] = 1000; }
     if (k == HI || k == HS) { if (x <= last[k]) add(k == HI ? "order-init-hooks-not-parent-first-registration-order" : "order-start-hooks-not-parent-first-registration-order", at(i)); }
-    else if (x >= last[k]) {
-      // a module deeper/later in the tree is stopped/cleaned after one that precedes it
-      std::string ctx = k == HT ? (a.os[x] ? cause(p, log, n, x, HS, a.spass[x], skip) : std::string("module-not-started"))
-                                : (a.oi[x] ? cause(p, log, n, x, HI, a.ipass[x], skip) : std::string("module-not-inited"));
-      add(std::string(k == HT ? "order-stop-hooks-not-exact-reverse-" : "order-cleanup-hooks-not-exact-reverse-") + ctx, at(i));
+    else {
+      // exact reverse = LIFO between hooks that both occur: y's stop/cleanup hook is late when a module whose
+      // start/init hook ran EARLIER than y's (and was outstanding together with it) has already been stopped/cleaned
+      // (a plain "decreasing id per root call" would be too strong: two separate roll-backs inside one
+      // initialize()/start() of a corrected implementation legitimately give e.g. I0 I1 I2x C1 I3 I4x C3 C0)
+      uint8_t *lt = k == HT ? lateT : lateC;
+      if (lt[x]) {
+        std::string ctx = k == HT ? (a.os[x] ? cause(p, log, n, x, HS, a.spass[x], skip) : std::string("module-not-started"))
+                                  : (a.oi[x] ? cause(p, log, n, x, HI, a.ipass[x], skip) : std::string("module-not-inited"));
+        add(std::string(k == HT ? "order-stop-hooks-not-exact-reverse-" : "order-cleanup-hooks-not-exact-reverse-") + ctx, at(i));
+      }
+      lt[x] = 0;
+      for (int y = 0; y < p.n; y++) {
+        if (k == HT && a.os[x] && a.os[y] && sseq[y] > sseq[x]) lateT[y] = 1;
+        if (k == HC && a.oi[x] && a.oi[y] && iseq[y] > iseq[x]) lateC[y] = 1;
+      }
     }
     last[k] = x;
     switch (k) {
       case HI:
         if (a.oi[x]) add("init-hook-rerun-before-cleanup-" + cause(p, log, n, x, HI, a.ipass[x], skip), at(i));
-        if (ok && !a.oi[x]) { a.oi[x] = 1; a.ipass[x] = (int8_t)log[i].pass; }   // context = the first unmatched success
+        if (ok && !a.oi[x]) { a.oi[x] = 1; a.ipass[x] = (int8_t)log[i].pass; iseq[x] = i; lateC[x] = 0; }   // context = the first unmatched success
         break;
       case HS:
         if (!a.oi[x]) add("start-hook-without-successful-init", at(i));
         if (a.os[x]) add("start-hook-rerun-before-stop-" + cause(p, log, n, x, HS, a.spass[x], skip), at(i));
-        if (ok && !a.os[x]) { a.os[x] = 1; a.spass[x] = (int8_t)log[i].pass; }
+        if (ok && !a.os[x]) { a.os[x] = 1; a.spass[x] = (int8_t)log[i].pass; sseq[x] = i; lateT[x] = 0; }
         break;
       case HT:
         if (!a.os[x]) add("stop-hook-for-module-not-started", at(i));
@@ -354,7 +366,13 @@ static std::string evalHistory(const Prog &p, const Json &cfg, const std::vector
   if (judged) c_balance_judged++;
   oracle(p, r, judged, -1, fs, &snap);
   std::string canon;
-  for (int i = 0; i < p.n; i++) canon += char('a' + r.state_snap[i] * 4 + snap.oi[i] * 2 + snap.os[i]);
+  for (int i = 0; i < p.n; i++) {
+    canon += char('a' + r.state_snap[i] * 4 + snap.oi[i] * 2 + snap.os[i]);
+    // oracle memory that decides future O1 verdicts: lateness flags and the relative age of outstanding hooks
+    int ri = 0, rs = 0;
+    for (int y = 0; y < p.n; y++) { if (snap.oi[i] && snap.oi[y] && snap.iseq[y] < snap.iseq[i]) ri++; if (snap.os[i] && snap.os[y] && snap.sseq[y] < snap.sseq[i]) rs++; }
+    canon += char('0' + ri); canon += char('0' + rs); canon += char('0' + (snap.oi[i] ? snap.lateC[i] : 0) * 2 + (snap.os[i] ? snap.lateT[i] : 0));
+  }
   // O5
   for (int f : optFail) {
     execute(p, cfg, seq, len, FIN_CLEANUP_DESTROY, f, frontend, rr); c_exec++; c_meta++;
